@@ -228,9 +228,26 @@ def _border_case(desc, ctx):
 def _normals(V, F):
     N = []
     for f in F:
-        n = np.cross(V[f[1]] - V[f[0]], V[f[2]] - V[f[0]])
+        if len(f) == 3:
+            n = np.cross(V[f[1]] - V[f[0]], V[f[2]] - V[f[0]])
+        else:
+            # polygon: vector area about the barycentre (only planar polygons are judged, see _planar_faces)
+            c = np.mean([V[v] for v in f], axis=0)
+            n = sum(np.cross(V[f[k]] - c, V[f[(k + 1) % len(f)]] - c) for k in range(len(f)))
         N.append(n / np.linalg.norm(n))
     return N
+
+
+def _planar_faces(V, F):
+    V = np.asarray(V, float)
+    N = _normals(V, F)
+    for f, n in zip(F, N):
+        if len(f) > 3:
+            c = np.mean([V[v] for v in f], axis=0)
+            size = max(float(np.linalg.norm(V[v] - c)) for v in f)
+            if not np.all(np.isfinite(n)) or any(abs(float(np.dot(V[v] - c, n))) > 1e-12 * size for v in f):
+                return False
+    return True
 
 
 def _hinge(rng, phi, n):
@@ -431,7 +448,7 @@ def _feature_oracle(ctx, V, F, declared, only_border, corner_order, flag_corners
             for fi in ref.v2f[v]:
                 f = F[fi]
                 k = f.index(v)
-                a, b, c = Va[f[k]], Va[f[(k + 1) % 3]], Va[f[(k - 1) % 3]]
+                a, b, c = Va[f[k]], Va[f[(k + 1) % len(f)]], Va[f[(k - 1) % len(f)]]
                 u, w = b - a, c - a
                 ang += math.atan2(np.linalg.norm(np.cross(u, w)), np.dot(u, w))
             x = ang * corner_order / (2 * math.pi)
@@ -499,6 +516,14 @@ def _hinge_case(desc, ctx):
 
 def _features_zoo_case(desc, ctx):
     z = surfaces.make(desc["seed"], max_size=desc["max_size"], tri_only=True)
+    if desc["seed"] % 3 == 0:
+        # quad / polygon / mixed surfaces whose faces are planar (so that "the face normal" has one meaning)
+        for attempt in range(6):
+            zp = surfaces.make(desc["seed"] + 7919 * attempt, max_size=desc["max_size"])
+            if any(len(f) > 3 for f in zp["F"]) and _planar_faces(zp["V"], zp["F"]):
+                z = zp
+                ctx.cls("zoo:faces_with_more_than_three_sides")
+                break
     V, F = z["V"], z["F"]
     rng = random.Random(desc["seed"] ^ 5)
     ref = RefSurface(len(V), F)
